@@ -978,6 +978,9 @@ class Gen(object):
             op["clean"] = True      # the way a document with resolved links is saved: clean first
         return op
 
+    def g_reseed(self):
+        return {"op": "reseed", "k": self.pick([0, 1, 42])}
+
     def g_advance(self):
         return {"op": "advance", "s": self.pick([1, 60, 86400, 200000])}
 
